@@ -44,6 +44,13 @@ func init() {
 	initTLVHandlers()
 }
 
+// isExponent reports whether n is a proper exponent of a zero knowledge
+// proof: 1 <= n < q. Values outside that range verify just as well (the
+// arithmetic is modulo q) but no honest party sends them.
+func isExponent(n *big.Int) bool {
+	return n != nil && n.Sign() > 0 && lt(n, q)
+}
+
 func isGroupElement(n *big.Int) bool {
 	return gte(n, g1) && lte(n, pMinusTwo)
 }
